@@ -20,6 +20,7 @@ mod fam_abt;
 mod fam_vtime;
 mod fam_nfs;
 mod fam_stream;
+mod iterscript;
 mod util;
 
 use std::io::Write;
